@@ -1,4 +1,4 @@
--- Root of the `GunYu` library: models, generated tables, property theorems.
+-- Root of the `GunYu` library. Property modules are built by name
+-- (`lake build GunYu.Props.Cxx`), see /verif/check; the root imports only the
+-- shared basics so that one unfinished module never blocks the others.
 import GunYu.Basic.Bytes
-import GunYu.Model.Slot
-import GunYu.Props.C11
